@@ -32,7 +32,7 @@ def base_events(n=3, spell=2, mgmt=True, raises=False, introspect=False, extra=(
     ev = call_events(n, spell)
     if mgmt:
         ev += [('dump',), ('load',), ('clear',), ('arch', False), ('arch', True), ('dumpk', 0), ('loadk', 1),
-               ('clearks',)]
+               ('clearks',), ('newarch',), ('dumpks', 2, 0, 1), ('loadks', 2, 0)]
     if raises:
         ev += [('raise', 0, 'Boom'), ('raise', n - 1, 'KeyError'), ('raise', 1, 'TypeError')]
     if introspect:
@@ -174,7 +174,7 @@ def narrow_configs(tier):
     one management operation, one macro event; depth 7-8 (bookkeeping that survives a management operation
     only shows after several further insertions)"""
     cfgs = []
-    mgmt = [('clearks',), ('clear',), ('dump',)] if tier == 'quick' else [('clearks',), ('clear',), ('dump',), ('raise', 0, 'Boom'), ('load',)]
+    mgmt = [('clearks',), ('clear',), ('dump',), ('raise', 0, 'Boom')] if tier == 'quick' else [('clearks',), ('clear',), ('dump',), ('raise', 0, 'Boom'), ('load',)]
     for mod in MODULES:
         for alg in BOUNDED:
             for ms in ((2,) if tier == 'quick' else (2, 3)):
@@ -331,7 +331,7 @@ def ev_for(prop, cfg, tier):
         return ev
     if prop == 'C06':
         # what the statement quantifies over: calls (+ clear / dump, which keep bookkeeping consistent)
-        ev = call_events(n, sp) + [('clear',), ('dump',), ('clearks',)]
+        ev = call_events(n, sp) + [('clear',), ('dump',), ('clearks',), ('raise', n - 1, 'Boom')]
         if cfg['alg'] == 'lru' and (tier != 'quick' or cfg['maxsize'] <= 2):
             ms = cfg['maxsize']
             ev += [('callx', 0, 10 * ms - 1), ('callx', 1, 10 * ms + 1)]
@@ -341,8 +341,12 @@ def ev_for(prop, cfg, tier):
     if prop == 'C05' and cfg.get('wide'):
         return call_events(n, sp) + [('clearks',), ('clear',)]
     if prop == 'C05':
-        return call_events(n, sp) + [('load',), ('dump',), ('clear',), ('clearks',), ('raise', 0, 'Boom')]
+        return call_events(n, sp) + [('load',), ('dump',), ('clear',), ('clearks',), ('raise', 0, 'Boom'), ('arch', False), ('arch', True)]
     if prop == 'C01':
+        if tier == 'quick' and (cfg.get('fn') or cfg.get('keymap', 'default') != 'default'):
+            # configurations whose point is the key (function shape, keymap family): calls plus the operations that move
+            # entries between memory and archive; the full management alphabet runs on the default-keymap configurations
+            return call_events(n, sp) + [('dump',), ('load',), ('clear',), ('arch', False), ('arch', True), ('dumpks', 2, 0, 1)]
         return base_events(n, sp, mgmt=True) + [('redec',)]
     if prop == 'C02':
         return base_events(n, sp, mgmt=True, raises=False) + [('redec',), ('raise', 0, 'Boom')]
@@ -371,7 +375,7 @@ BOUNDS = {
     'C01': ((6, 1500), (8, 12000), 4),
     'C02': ((6, 1500), (8, 12000), 4),
     'C05': ((6, 2000), (8, 15000), 4),
-    'C06': ((6, 1200), (9, 25000), 5),
+    'C06': ((6, 800), (9, 25000), 5),
     'C07': ((6, 1500), (8, 12000), 4),
     'C15': ((5, 1200), (7, 10000), 4),
     'C16': ((5, 1200), (7, 10000), 4),
@@ -428,6 +432,8 @@ def run(prop, tier, seed):
         persistent = cfg['backend'].split(':')[-1] in cachemc.PERSISTENT
         d = min(depth, 4 if tier == 'quick' else 5) if persistent else cfg.get('depth', depth)
         st = min(states, 400 if tier == 'quick' else 2500) if persistent else cfg.get('states', states)
+        if prop == 'C01' and tier == 'quick' and not persistent and (cfg.get('fn') or cfg.get('keymap', 'default') != 'default'):
+            st = min(st, 700)
         tasks.append((prop, cfg, 'bfs', d, st, None, tier))
     if tier == 'thorough' and dfs:
         for cfg in cfgs:
